@@ -87,10 +87,24 @@ def readOk (doc : List UInt8) (impl : List String) : Bool :=
         | _ => false
       | _ => false
 
+/-- Cue lists `Spec.SSA.denote` accepts although the written document cannot denote them (kernel-checked
+    counterexamples in `Props/C04w2.lean`, hypotheses `Extra.breaks`, `Extra.cr`, `Extra.styleRef`): a line break
+    or carriage return inside an override block (`SSAEffect`), and a cue whose style reference is the empty
+    string (read as "no style"). Not representable; the write predicate does not judge them. -/
+def ssaWriteOutside (s : Subs) : Bool :=
+  let badBlock (a : Attrs) : Bool :=
+    match SRT.kvGet a "SSAEffect" with
+    | some v => contains "\\n".toList v || contains "\\N".toList v || v.contains '\r' || v.contains '\n'
+    | none => false
+  s.items.any fun it =>
+    it.style == some [] || badBlock it.attrs ||
+    it.lines.any fun l => l.items.any fun li => badBlock li.attrs
+
 /-- C04 (write): the bytes denote the same cues, styles and script info to the independent decoder and
     to the library's reader, and writing what was read back gives the same bytes -/
 def writeOk (s : Subs) (impl : List String) : Bool :=
   if s.items.isEmpty then impl == ["err"] else
+  if ssaWriteOutside s then true else
   match Spec.SSA.denote s with
   | none => true
   | some want =>
